@@ -159,11 +159,14 @@ def check(ctx, rep):
             if kind == "guard" and n == ("Lt", S("round"), S("cc")):
                 seen_guard = True
             elif kind == "value" and cterm is None:
-                x = strip(tm)
-                is_idx = (util.is_call(x) and x[1].endswith("::index") and canon(ctx, se, x[2][0]) == vf("coords") and arith.norm(x[2][1], env) == S("round")) or (x[0] == "index" and strip(x[1]) == vf("coords") and arith.norm(x[2], env) == S("round"))
-                if is_idx:
-                    idx_ok = seen_guard      # the lookup runs only behind the guard
-                    cterm = x
+                # the first step whose value contains the lookup is the step that performs it
+                for x in walk(strip(tm)):
+                    is_idx = (util.is_call(x) and x[1].endswith("::index") and canon(ctx, se, x[2][0]) == vf("coords")) or (x[0] == "index" and strip(x[1]) == vf("coords"))
+                    if is_idx:
+                        ix = x[2][1] if util.is_call(x) else x[2]
+                        idx_ok = seen_guard and arith.norm(ix, env) == S("round") and x == strip(tm)     # only behind the guard, and nothing else rides along
+                        cterm = x
+                        break
             elif kind == "value" and cterm is not None:
                 x = strip(tm)
                 if x[0] == "agg" and x[1] == "tuple" and len(x[4]) == 2:
